@@ -1,5 +1,5 @@
 import ParamVerif.Util.Proto
-import ParamVerif.Async.Spec
+import ParamVerif.Async.SpecExt
 import ParamVerif.Async.Rx
 open Lean ParamVerif ParamVerif.Proto ParamVerif.Async
 
@@ -12,73 +12,82 @@ def ints (j : Json) : Except String (List Int) := do
 def nats (j : Json) : Except String (List Nat) := do
   (← j.getArr?).toList.mapM (·.getNat?)
 
-/-- events with the values of the hand-made futures filled in from the assignments -/
-def parseEvents (arr : Array Json) : Except String (List Event) := do
-  -- first pass: the value table (task id → values)
-  let mut table : Array (List Int) := #[]
-  for e in arr do
-    if (← getStr e "e") == "assign" then
-      let src ← getStr e "src"
-      if src == "coro" || src == "agen" then
-        table := table.push (← ints (← e.getObjVal? "v"))
-  let mut out : List Event := []
+/-- result of the k-th hand-made future of task `t` (same formula as harness/props/c10.py:fut_value) -/
+def futValue (t k : Nat) : Int := 10 * ((t : Int) + 1) + k
+
+def parseEvents (arr : Array Json) : Except String (List EventH) := do
+  let mut out : List EventH := []
   for e in arr do
     match ← getStr e "e" with
     | "assign" =>
       let p ← getNat e "p"
       let vs ← ints (← e.getObjVal? "v")
+      let dep := match getOpt e "dep" with | some d => d.getBool?.toOption.getD false | none => false
       match ← getStr e "src" with
-      | "coro" => if vs.length != 1 then throw "coro needs one value" else out := out ++ [.assign p .coro]
-      | "agen" => out := out ++ [.assign p (.agen vs.length)]
+      | "coro" => out := out ++ [.assign p .coro dep]
+      | "agen" => out := out ++ [.assign p (.agen vs.length) dep]
       | "plain" =>
         match vs with
-        | [v] => out := out ++ [.assign p (.plain v)]
+        | [v] => out := out ++ [.assign p (.plain v) false]
         | _ => throw "plain needs one value"
       | s => throw s!"unknown src {s}"
     | "tick" => out := out ++ [.tick]
+    | "bump" => out := out ++ [.bump]
     | "complete" =>
       let t ← getNat e "t"
       let k ← getNat e "k"
-      match (table[t]?).bind (·[k]?) with
-      | some v => out := out ++ [.complete t k v]
-      | none => throw s!"complete of unknown future ({t},{k})"
+      out := out ++ [.complete t k (futValue t k)]
     | s => throw s!"unknown event {s}"
   return out
 
-def parseObs (j : Json) : Except String Obs := do
+def parseObs (j : Json) : Except String ObsH := do
   let log ← (← getArr j "log").toList.mapM fun p => do
     let q ← p.getArr?
     if q.size != 2 then throw "pair expected"
     return (← q[0]!.getNat?, ← q[1]!.getInt?)
+  let spawns ← (← getArr j "spawns").toList.mapM fun p => do
+    let q ← p.getArr?
+    if q.size != 3 then throw "triple expected"
+    return (← q[0]!.getNat?, ← q[1]!.getNat?, ← q[2]!.getNat?)
   return { vals := ← ints (← j.getObjVal? "vals"), async := ← nats (← j.getObjVal? "async"),
-           sync := ← nats (← j.getObjVal? "sync"), refs := ← nats (← j.getObjVal? "refs"), log := log }
+           sync := ← nats (← j.getObjVal? "sync"), refs := ← nats (← j.getObjVal? "refs"), log := log, spawns := spawns }
 
-def jObs (o : Obs) : Json := Json.mkObj [
+def jObs (o : ObsH) : Json := Json.mkObj [
   ("vals", Json.arr (o.vals.map toJson).toArray), ("async", Json.arr (o.async.map toJson).toArray),
   ("sync", Json.arr (o.sync.map toJson).toArray), ("refs", Json.arr (o.refs.map toJson).toArray),
-  ("log", Json.arr (o.log.map fun (p, v) => Json.arr #[toJson p, toJson v]).toArray)]
+  ("log", Json.arr (o.log.map fun (p, v) => Json.arr #[toJson p, toJson v]).toArray),
+  ("spawns", Json.arr (o.spawns.map fun (t, p, r) => Json.arr #[toJson t, toJson p, toJson r]).toArray)]
 
 /-- labels of the model branches a ready-queue step takes (for the coverage table) -/
-def stepLabels (c : Cfg) (s : St) : List String :=
+def stepLabels (c : Cfg) (h : Hook) (rf : Nat → Nat) (s : St) : List String :=
   match s.ready with
   | [] => []
   | (t, w) :: _ =>
     match s.tasks t with
     | none => ["step:no-task"]
     | some x =>
-      let s' := stepReady c s
+      let s' := stepReadyH c h rf s
       let unl := if (s.refs x.param).isSome && (s'.refs x.param).isNone then ["step:result-unlinks-own-reference"] else []
       let stuck := if (s'.tasks t).any (fun y => y.pc.terminal) && s'.syncing.contains x.param then ["step:name-left-in-syncing"] else []
-      unl ++ stuck ++
+      let hooked := match h with
+        | some (a, b, _) =>
+          if x.param = a && s'.log.length > s.log.length then
+            [if (s.asyncRefs b).isSome && (s'.asyncRefs b).isNone then "hook:in-step:cancels-registered"
+             else if (s.refs b).isSome && (s'.refs b).isNone then "hook:in-step:unlinks"
+             else if (s'.refs b).isSome then "hook:in-step:unlink-skipped" else "hook:in-step:not-linked"]
+          else []
+        | none => []
+      unl ++ stuck ++ hooked ++
       match w with
       | none =>
         if x.pc != .start then ["start:spurious"]
         else if x.mustCancel then ["start:cancelled-before-start"]
-        else if c.startCheck && s.refs x.param != some t then ["start:stale-reference-skipped"]
+        else if c.startCheck && s.refs x.param != some (rf t) then ["start:stale-reference-skipped"]
         else
           (match s.asyncRefs x.param with
            | none => ["start:register"]
-           | some u => if u = t then ["start:already-registered"] else ["start:cancel-registered-other"]) ++
+           | some u => if u = t then ["start:already-registered"] else
+               [if rf u = rf t then "start:cancel-registered-older-evaluation" else "start:cancel-registered-other"]) ++
           (match s'.tasks t with
            | some y => (match y.pc with
               | .awaitCoro _ => ["start:suspend-in-scope"]
@@ -94,67 +103,85 @@ def stepLabels (c : Cfg) (s : St) : List String :=
               | .awaitOut => "wake:result:coroutine"
               | .awaitGen _ => "wake:result:generator"
               | _ => "wake:spurious"]
-          | .cancelled => ["wake:cancelled-future"]
+          | .cancelled => [if (s.asyncRefs x.param) != some t && (s.asyncRefs x.param).isSome
+                           then "wake:cancelled-future:newer-task-registered" else "wake:cancelled-future"]
           | .pending _ => ["wake:spurious"]
 
-def tickLabels (c : Cfg) : Nat → St → List String
+def tickLabels (c : Cfg) (h : Hook) (rf : Nat → Nat) : Nat → St → List String
   | 0, _ => []
-  | n + 1, s => if s.ready.isEmpty then [] else stepLabels c s ++ tickLabels c n (stepReady c s)
+  | n + 1, s => if s.ready.isEmpty then [] else stepLabels c h rf s ++ tickLabels c h rf n (stepReadyH c h rf s)
 
-def eventLabels (c : Cfg) (s : St) : Event → List String
-  | .assign p (.plain _) =>
+def eventLabels (c : Cfg) (h : Hook) (sh : StH) : EventH → List String
+  | .assign p (.plain _) _ =>
+    let s := sh.core
     [if (s.refs p).isSome && !s.syncing.contains p then
        (if (s.asyncRefs p).isSome then "assign:plain:unlink-and-cancel" else "assign:plain:unlink")
-     else if (s.refs p).isSome then "assign:plain:unlink-skipped-syncing" else "assign:plain:not-linked"]
-  | .assign p src =>
-    [(match src with | .coro => "assign:coro" | _ => "assign:agen") ++
-      (if (s.asyncRefs p).isSome then ":cancels-registered" else "")]
-  | .tick => tickLabels c (tickFuel s) s
+     else if (s.refs p).isSome then "assign:plain:unlink-skipped-syncing" else "assign:plain:not-linked"] ++
+    (match h with | some (a, _, _) => if p = a then ["hook:on-driver-assignment"] else [] | none => [])
+  | .assign p src dep =>
+    [(match src with | .coro => "assign:coro" | _ => "assign:agen") ++ (if dep then ":dependent" else "") ++
+      (if (sh.core.asyncRefs p).isSome then ":cancels-registered" else "")]
+  | .tick => tickLabels c h sh.rf (tickFuel sh.core) sh.core
   | .complete t k _ =>
-    [match s.futs (t, k) with
+    [match sh.core.futs (t, k) with
      | .pending (some _) => "complete:wakes-task"
      | .pending none => "complete:not-awaited-yet"
      | .done _ => "complete:already-done"
      | .cancelled => "complete:cancelled-future"]
+  | .bump =>
+    let n := (bumpH sh).core.nTasks - sh.core.nTasks
+    [if n = 0 then "bump:no-dependent-reference" else s!"bump:reschedules-{n}"] ++
+    (if n > 0 && sh.keys.any (fun p => (sh.core.asyncRefs p).isSome) then ["bump:while-task-registered"] else []) ++
+    (if n > 0 && sh.keys.any (fun p => match sh.core.refs p with | some r => !sh.deps.contains r | none => false)
+     then ["bump:also-reschedules-independent-reference"] else [])
 
 def optJ : Option String → Json
   | some s => Json.str s
   | none => Json.null
+
+/-- the hazards of the core model (Async/Spec.lean), for the events it has -/
+def coreEvent : EventH → Option Event
+  | .assign p src _ => some (.assign p src)
+  | .tick => some .tick
+  | .complete t k v => some (.complete t k v)
+  | .bump => none
 
 def handleParam (case impl : Json) : Except String Json := do
   let np ← getNat case "np"
   let cj ← impl.getObjVal? "cfg"
   let c : Cfg := { awaitInside := ← getBool cj "awaitInside", startCheck := ← getBool cj "startCheck",
                    registerAlways := ← getBool cj "registerAlways" }
+  let hook : Hook ← match getOpt case "hook" with
+    | some hj => do
+      let a ← hj.getArr?
+      if a.size != 3 then throw "hook: [a, b, w] expected"
+      pure (some (← a[0]!.getNat?, ← a[1]!.getNat?, ← a[2]!.getInt?))
+    | none => pure none
   let evs ← parseEvents (← getArr case "events")
   -- model run
-  let s0 := St.init 0
-  let (sEnd, revObs, revHaz, revBr, ok) := evs.foldl
-    (fun (acc : St × List Obs × List String × List String × Bool) ev =>
-      let (s, l, hz, br, ok) := acc
-      let s' := applyEvent c s ev
-      (s', observe np s' s.log.length :: l,
-        (hazardNames c s ev).reverse ++ hz,
-        ((hazardNames c s ev).map ("hazard:" ++ ·)).reverse ++ (eventLabels c s ev).reverse ++ br,
-        ok && (ev != .tick || s'.ready.isEmpty)))
+  let s0 := StH.init 0
+  let (_, revObs, revHaz, revBr, ok) := evs.foldl
+    (fun (acc : StH × List ObsH × List String × List String × Bool) ev =>
+      let (sh, l, hz, br, ok) := acc
+      let sh' := applyEventH c hook sh ev
+      let hzs := match coreEvent ev with | some e => hazardNames c sh.core e | none => []
+      (sh', observeH np sh' sh.core.log.length sh.core.nTasks :: l,
+        hzs.reverse ++ hz,
+        (hzs.map ("hazard:" ++ ·)).reverse ++ (eventLabels c hook sh ev).reverse ++ br,
+        ok && (ev != .tick || sh'.core.ready.isEmpty)))
     (s0, [], [], [], true)
   if !ok then throw "model: a tick did not drain the ready queue (fuel)"
-  let _ := sEnd
-  let modelInit := observe np s0 0
+  let modelInit := observeH np s0 0 0
   let modelSteps := revObs.reverse
   let implInit ← parseObs (← impl.getObjVal? "init")
   let implSteps ← (← getArr impl "steps").toList.mapM parseObs
   if implSteps.length != evs.length then throw "impl: number of observations differs from the number of events"
-  let initBad (o : Obs) : Option String :=
-    if o != modelInit then some "initial observation is not the idle object" else none
-  let specOn (init : Obs) (steps : List Obs) : Nat × Option String :=
-    match initBad init with
-    | some m => (0, some m)
-    | none => specHistory np [] (evs.zip steps) 0
+  let specOn (init : ObsH) (steps : List ObsH) : Nat × Option String :=
+    if init != modelInit then (0, some "initial observation is not the idle object")
+    else specHistoryH np hook OSt.init (evs.zip steps) 0
   let (nImpl, sImpl) := specOn implInit implSteps
   let (_, sModel) := specOn modelInit modelSteps
   let hazards := revHaz.reverse
-  -- on a hazard-free schedule the theorems promise the oracle holds on the model: say so if not
   return Json.mkObj [
     ("model", Json.mkObj [("cfg", cj), ("init", jObs modelInit), ("steps", Json.arr (modelSteps.map jObs).toArray),
                           ("hazards", Json.arr (hazards.map Json.str).toArray)]),
